@@ -207,9 +207,27 @@ theorem inv_step {h : Heap} (hh : HInv h) (op : Op) :
       simp only
       split_ifs
       · exact ⟨hh, trivial⟩
+      · exact ⟨hh, trivial⟩
       · cases f.positions a.jd1.length with
         | none => exact ⟨hh, trivial⟩
         | some pj => exact ⟨hinv_set hh ⟨by simp [afterGet], hv, hj⟩, trivial⟩
+  | getEll t i =>
+    simp only [step]
+    cases ha : h[t]? with
+    | none => exact ⟨hh, trivial⟩
+    | some a =>
+      obtain ⟨hp, hv, hj⟩ := good_of_getElem? hh ha
+      simp only
+      split_ifs
+      · exact ⟨hh, trivial⟩
+      · rw [hv]
+        cases hk : normIdx a.jd1.length i with
+        | none => exact ⟨hh, trivial⟩
+        | some k =>
+          simp only [finalize]
+          refine ⟨hinv_append (hinv_set hh ⟨by simp [afterGet], by simp [afterGet], by simpa [afterGet] using hj⟩)
+            ⟨rfl, rfl, by simp [hj]⟩, ?_⟩
+          exact ⟨rfl, by simp [Arr.obs, hj]⟩
   | same t =>
     simp only [step]
     cases ha : h[t]? with
@@ -276,6 +294,14 @@ theorem getInt_is_index {h : Heap} (hh : HInv h) (t : Nat) (i : Int) (a : Arr) (
     (hs : a.scalar = false) (k : Nat) (hk : normIdx a.jd1.length i = some k) :
     (step true h (.getInt t i)).out = .arr ⟨pick a.jd1 [k], pick a.jd1 [k], pick a.jd2 [k], true, a.cls, a.fmt⟩ := by
   simp [step, getIntStep, ha, hs, hk, Arr.obs]
+
+/-- `t[i, ...]` returns the same single epoch as `t[i]` (made along another route: a 0-d view with the hand-over) -/
+theorem getEll_is_getInt {h : Heap} (hh : HInv h) (t : Nat) (i : Int) (a : Arr) (ha : h[t]? = some a)
+    (hs : a.scalar = false) (k : Nat) (hk : normIdx a.jd1.length i = some k) :
+    (step true h (.getEll t i)).out = (step true h (.getInt t i)).out := by
+  obtain ⟨hp, hv, hj⟩ := good_of_getElem? hh ha
+  have hk' : normIdx a.vals.length i = some k := by rw [hv]; exact hk
+  simp [step, getIntStep, ha, hs, hk, hk', finalize, Arr.obs, hv]
 
 /-- views and copies observe exactly the parent's three lists -/
 theorem view_copy_same {h : Heap} (hh : HInv h) (t : Nat) (a : Arr) (ha : h[t]? = some a) :
@@ -434,6 +460,8 @@ theorem history_independent {h h' : Heap} (hh : HInv h) (hh' : HInv h') (op : Op
       | some a' => have := arr_eq t a a' e e'; subst this; rfl
   | scale t target => simp only [step, hget t]; cases h'[t]? <;> simp only <;> (try split_ifs) <;> rfl
   | getBad t f => simp only [step, hget t]; cases h'[t]? <;> simp only <;> split_ifs <;> try rfl
+                  split <;> rfl
+  | getEll t i => simp only [step, hget t]; cases h'[t]? <;> simp only <;> split_ifs <;> try rfl
                   split <;> rfl
   | same t => simp only [step, hget t]; cases h'[t]? <;> rfl
   | refused t f => simp only [step, hget t]; cases h'[t]? <;> rfl
@@ -596,9 +624,21 @@ theorem step_extends {h : Heap} (hh : HInv h) (op : Op) : ∃ new, (step true h 
       simp only
       split_ifs
       · exact ⟨[], (List.append_nil _).symm⟩
+      · exact ⟨[], (List.append_nil _).symm⟩
       · cases f.positions a.jd1.length with
         | none => exact ⟨[], (List.append_nil _).symm⟩
         | some pj => simp only [set_back hh t a ha]; exact ⟨[], (List.append_nil _).symm⟩
+  | getEll t i =>
+    simp only [step]
+    cases ha : h[t]? with
+    | none => exact ⟨[], (List.append_nil _).symm⟩
+    | some a =>
+      simp only
+      split_ifs
+      · exact ⟨[], (List.append_nil _).symm⟩
+      · cases normIdx a.vals.length i <;> cases normIdx a.jd1.length i <;> try exact ⟨[], (List.append_nil _).symm⟩
+        simp only [set_back hh t a ha]
+        exact ⟨_, rfl⟩
 
 theorem run_extends {h : Heap} (hh : HInv h) (ops : List Op) : ∃ new, (run true h ops).heap = h ++ new := by
   induction ops generalizing h with
@@ -619,6 +659,7 @@ theorem getBad_no_trace {h : Heap} (hh : HInv h) (t : Nat) (f : First) :
   | some a =>
     simp only
     split_ifs
+    · exact ⟨rfl, rfl⟩
     · exact ⟨rfl, rfl⟩
     · cases f.positions a.jd1.length with
       | none => exact ⟨rfl, rfl⟩
@@ -752,10 +793,10 @@ theorem unrepaired_misaligns :
   decide +kernel
 
 /-- … and so is the `finally`: with `clear = false`, an index NumPy refuses after the jd parts were sliced
-(`t[2, 0]`) leaves them on `t`, and the next view carries 5 values next to the jd parts of that one epoch -/
+(`g[2, 3]` on a three-column array) leaves them on `g`, and the next view carries 5 values next to the jd parts of that one epoch -/
 theorem unrepaired_refused_index_misaligns :
-    (run false [fresh 0 5] [.getBad 0 (.int 2), .view 0]).outs
-      = [.error, .arr ⟨[0, 1, 2, 3, 4], [2], [2], false, 0, 0⟩] := by
+    (run false [fresh 0 5 2 2] [.getBad 0 (.int 2), .view 0]).outs
+      = [.error, .arr ⟨[0, 1, 2, 3, 4], [2], [2], false, 2, 2⟩] := by
   decide +kernel
 
 /-! ### Non-vacuity -/
@@ -770,8 +811,8 @@ example : (run true [fresh 0 5] [.getSel 0 (.slice (some 1) (some 3) 1), .view 0
 /-- refused indices, refused NumPy functions, the object itself, plain concatenation, a scale and back: outputs and
 `__array_finalize__` calls -/
 example : (run true [fresh 0 5 0 1] [.getBad 0 (.int 2), .view 0, .getBad 0 (.sel (.slice (some 1) (some 3) 1)),
-      .refused 0 .flatten, .same 0, .concat [0, 1] true, .scale 1 1, .scale 3 0]).hooks
-    = [[], [.parent 0 false], [], [.parent 0 false], [], [.parent 1 false], [.plain], [.plain]] := by decide +kernel
+      .refused 0 .flatten, .same 0, .concat [0, 1] true, .scale 1 1, .scale 3 0, .getEll 0 (-1)]).hooks
+    = [[], [.parent 0 false], [], [.parent 0 false], [], [.parent 1 false], [.plain], [.plain], [.parent 0 true]] := by decide +kernel
 
 /-- the hypotheses of `sel_of_sel_eq_direct` are satisfiable: `t[1:][::2]` and `t[[1, 3, 5]]` are `==` and agree in
 everything `__hash__` reads -/
@@ -827,3 +868,4 @@ end Midgard.Props.C04
 #print axioms Midgard.Props.C04.scale_round_trip_eq
 #print axioms Midgard.Props.C04.unrepaired_misaligns
 #print axioms Midgard.Props.C04.unrepaired_refused_index_misaligns
+#print axioms Midgard.Props.C04.getEll_is_getInt
